@@ -64,6 +64,7 @@ type simServer struct {
 
 	// observations
 	ctx        context.Context
+	errw       io.WriteCloser
 	started    bool
 	startedAt  time.Duration
 	request    *conformancev1.ServerCompatRequest
